@@ -683,7 +683,63 @@ def duplicated_hook_sites(out_view):
     return len(acc) != len(set(acc))
 
 
-def check_C15_C12(out_view, status_view, nhooks):
+def modified_without_hook_cause(in_view, out_view):
+    """why is a file Modified without a hook?  (role suffix)"""
+    found = []
+
+    def guards(v):
+        if isinstance(v, (list, tuple)):
+            return any(guards(x) for x in v)
+        if not isinstance(v, dict) or is_lazy(v):
+            return False
+        if v.get('_t') == 'Expr':
+            inj = injected_seq(v)
+            if inj is not None and is_optchain_guard(inj[1]):
+                return True
+        return any(guards(x) for x in v.values())
+
+    if not guards(out_view):
+        return ''
+    cause = ':lowered-optional-chain-without-hook'
+    if in_view is None:
+        return cause
+
+    def scan(v):
+        if isinstance(v, (list, tuple)):
+            for x in v:
+                scan(x)
+            return
+        if not isinstance(v, dict) or is_lazy(v):
+            return
+        if v.get('_t') == 'Expr' and kind(v) == 'OptChain':
+            p = payload(v)
+            base = p['base']
+            if not is_lazy(base) and base.get('_v') == 'Call':
+                cal = base['_0']['callee']
+                if not is_lazy(cal) and kind(cal) == 'OptChain' and not is_lazy(payload(cal)['base']) and payload(cal)['base'].get('_v') == 'Member':
+                    m = payload(cal)['base']['_0']
+                    if p['optional'] is True:
+                        found.append('optional-invocation')
+                    obj = m['obj']
+                    while not is_lazy(obj) and kind(obj) == 'OptChain' and not is_lazy(payload(obj)['base']) and payload(obj)['base'].get('_v') == 'Member':
+                        mm = payload(obj)['base']['_0']
+                        if not is_lazy(mm['prop']) and mm['prop'].get('_v') == 'Ident' and leaf_eq(mm['prop']['_0']['sym'], 'prototype') is not False:
+                            found.append('prototype-receiver')
+                        break
+                    if not is_lazy(obj) and kind(obj) == 'Member':
+                        pr = payload(obj)['prop']
+                        if not is_lazy(pr) and pr.get('_v') == 'Ident' and leaf_eq(pr['_0']['sym'], 'prototype') is not False:
+                            found.append('prototype-receiver')
+        for x in v.values():
+            scan(x)
+
+    scan(in_view)
+    if found:
+        cause += ':' + '+'.join(sorted(set(found)))
+    return cause
+
+
+def check_C15_C12(out_view, status_view, nhooks, in_view=None):
     """status / telemetry agree with the hooks present in the output"""
     out = []
     st = status_view['status']['_d']
@@ -696,7 +752,7 @@ def check_C15_C12(out_view, status_view, nhooks):
     if st_name == 'NotModified' and nhooks != 0:
         out.append(Violation('C12', 'status/notmodified-with-hooks', True, '%d hooks' % nhooks))
     if st_name == 'Modified' and nhooks == 0:
-        out.append(Violation('C12', 'status/modified-without-hook', True, ''))
+        out.append(Violation('C12', 'status/modified-without-hook' + modified_without_hook_cause(in_view, out_view), True, ''))
     if st_name != 'Cancelled':
         if tv == 'NoOp':
             pass
@@ -714,19 +770,31 @@ def check_C15_C12(out_view, status_view, nhooks):
 
 
 def check_C05_names(er, cfg_terms):
-    """every `_ddiast.<name>` is the dst of a configured entry"""
+    """every `_ddiast.<name>` is the dst of a configured entry THAT ENABLES this hook: the operator entry (operator flag set,
+    src = plusOperator / tplOperator) for `+`/`+=`/template hooks, the non-operator entry whose src is the method name for
+    method hooks"""
     out = []
     for h in er.hooks:
         name = h['name']
+        R = h['R']
+        k = kind(R)
+        tag = hook_tag(er, h)
         alts = []
         for (src, dst, op, awc) in cfg_terms:
             d = dst if dst is not None else src
-            alts.append(leaf_eq(name, d))
+            if k == 'Bin':
+                en = conj([leaf_eq(op, True), leaf_eq(src, 'plusOperator')])
+            elif k == 'Tpl':
+                en = conj([leaf_eq(op, True), leaf_eq(src, 'tplOperator')])
+            else:
+                en = conj([leaf_eq(op, False), leaf_eq(src, tag)]) if tag is not None else leaf_eq(op, False)
+            alts.append(conj([en, leaf_eq(name, d)]))
         if any(a is True for a in alts):
             continue
         alts = [a for a in alts if a is not False]
         c = z3.Or(alts) if alts else False
-        out.append(Violation('C05', 'hook-name/not-configured', neg(c), str(name)))
+        what = {'Bin': 'plus', 'Tpl': 'template'}.get(k, 'method')
+        out.append(Violation('C05', 'hook-name/%s-hook-not-enabled-by-configuration' % what, neg(c), 'hook %s emitted for a %s operation that no configured entry enables under that name' % (name, what)))
     return out
 
 
@@ -1553,7 +1621,28 @@ def reflective_on_plain_path(call):
     return n >= 1 and not is_lazy(cur) and kind(cur) == 'Ident'
 
 
-def check_C01(in_view, out_view):
+def has_plain_sum_operand(e):
+    """does expression e (template / call) have a direct operand that is a `+` which is not literal-only?"""
+    k = kind(e)
+    p = payload(e)
+    ops = []
+    if k == 'Tpl' and not is_lazy(p['exprs']):
+        ops = list(p['exprs'])
+    elif k == 'Call' and not is_lazy(p['args']):
+        ops = [a['expr'] for a in p['args']]
+        for a in p['args']:
+            if not is_lazy(a['expr']) and kind(a['expr']) == 'Array' and not is_lazy(payload(a['expr'])['elems']):
+                ops += [x['expr'] for x in payload(a['expr'])['elems'] if x is not None]
+    conds = []
+    for o in ops:
+        if is_lazy(o) or kind(o) != 'Bin':
+            continue
+        lo = lit_only(o)
+        conds.append(conj([leaf_eq(payload(o)['op']['_d'], ADD), neg(lo) if lo is not False else True]))
+    return z_or(conds) if conds else False
+
+
+def check_C01(in_view, out_view, cfg_terms=None):
     import jsorder
     out = []
     pairs = []
@@ -1569,6 +1658,22 @@ def check_C01(in_view, out_view):
         for role, cond, detail in diffs:
             ctxkind = kind(a)
             r = 'behaviour/%s:%s' % (role, ctxkind)
+            if ctxkind in ('Tpl', 'Call') and cfg_terms is not None:
+                hs = has_plain_sum_operand(a)
+                if hs is not False:
+                    # with the plus operator disabled a `+` operand is neither instrumented nor hoisted into a temporary, while
+                    # the operands after it are: they are then evaluated before it (same test-pinned behaviour as C03's
+                    # operand-missing:plus-operator-disabled)
+                    plus_off = neg(operator_enabled(cfg_terms, 'plusOperator'))
+                    c2 = conj([cond, hs, plus_off])
+                    if c2 is not False:
+                        key2 = ('behaviour/unhoisted-sum-operand-evaluated-after-later-operands:plus-operator-disabled', str(c2))
+                        if key2 not in seen:
+                            seen.add(key2)
+                            out.append(Violation('C01', key2[0], c2, detail))
+                    cond = conj([cond, neg(conj([hs, plus_off]))])
+                    if cond is False:
+                        continue
             if ctxkind == 'OptChain' and nested_chain_off_spine(a):
                 # the optional-chain lowering also lowers chains nested in arguments / computed keys of the instrumented chain,
                 # hoists them to the front and guards the WHOLE expression with the nested chain's null test
